@@ -590,6 +590,7 @@ type stackIterator struct {
 	retAddrs      []uintptr
 	retAddrCursor int
 	eng           *engine
+	c             *callEngine
 	pc            uint64
 
 	currentDef *wasm.FunctionDefinition
@@ -605,6 +606,35 @@ func (si *stackIterator) reset(c *callEngine, onHostCall bool) {
 	si.retAddrs = si.retAddrs[:len(si.retAddrs)-1] // the last return addr is the trampoline, so we skip it.
 	si.retAddrCursor = 0
 	si.eng = c.parent.parent.parent
+	si.c = c
+}
+
+// compiledModuleOfAddr returns the compiled module whose executable contains addr. A module that was closed while
+// its instances are still in use is no longer known to the engine, so fall back to the modules reachable from
+// the call engine: its own and, transitively, the ones it imports functions from.
+func (si *stackIterator) compiledModuleOfAddr(addr uintptr) *compiledModule {
+	if cm := si.eng.compiledModuleOfAddr(addr); cm != nil {
+		return cm
+	}
+	return si.c.parent.reachableCompiledModuleOfAddr(addr)
+}
+
+func (m *moduleEngine) reachableCompiledModuleOfAddr(addr uintptr) *compiledModule {
+	if cm := m.parent; len(cm.executable) > 0 && checkAddrInBytes(addr, cm.executable) {
+		return cm
+	}
+	var prev *moduleEngine
+	for i := range m.importedFunctions {
+		me := m.importedFunctions[i].me
+		if me == nil || me == prev {
+			continue
+		}
+		prev = me
+		if cm := me.reachableCompiledModuleOfAddr(addr); cm != nil {
+			return cm
+		}
+	}
+	return nil
 }
 
 // Next implements the same method as documented on experimental.StackIterator.
@@ -614,7 +644,7 @@ func (si *stackIterator) Next() bool {
 	}
 
 	addr := si.retAddrs[si.retAddrCursor]
-	cm := si.eng.compiledModuleOfAddr(addr)
+	cm := si.compiledModuleOfAddr(addr)
 	if cm != nil {
 		index := cm.functionIndexOf(addr)
 		def := cm.module.FunctionDefinition(cm.module.ImportFunctionCount + index)
@@ -644,7 +674,10 @@ func (si *stackIterator) Definition() api.FunctionDefinition {
 // SourceOffsetForPC implements the same method as documented on experimental.InternalFunction.
 func (si *stackIterator) SourceOffsetForPC(pc experimental.ProgramCounter) uint64 {
 	upc := uintptr(pc)
-	cm := si.eng.compiledModuleOfAddr(upc)
+	cm := si.compiledModuleOfAddr(upc)
+	if cm == nil {
+		return 0
+	}
 	return cm.getSourceOffset(upc)
 }
 
